@@ -209,6 +209,16 @@ func (p *pathNode) addPathNodeFor(name string, pn *pathNode) {
 // returned by this function. Any operations on the removed tree must use this
 // value.
 func (p *pathNode) removeWithName(name string, fn func(ref *fidRef)) *pathNode {
+	// The references taken for the callbacks are dropped only after
+	// childMu is released: dropping the last reference removes the child
+	// from its (new) parent's pathNode, which may be p itself.
+	var held []*fidRef
+	defer func() {
+		for _, ref := range held {
+			ref.DecRef()
+		}
+	}()
+
 	p.childMu.Lock()
 	defer p.childMu.Unlock()
 
@@ -226,7 +236,7 @@ func (p *pathNode) removeWithName(name string, fn func(ref *fidRef)) *pathNode {
 			// been destroyed, then we can skip the callback.
 			if ref.TryIncRef() {
 				fn(ref)
-				ref.DecRef()
+				held = append(held, ref)
 			}
 		}
 	}
